@@ -70,6 +70,8 @@ pub fn script(limit: u128, cmp: &[&str], fam: u64, ev: Vec<Value>, note: &str) -
 }
 
 pub const ORACLE: [&str; 3] = ["res", "popped", "whole"];
+/// the same plus the pending-output flag (C04: a refusal for size queues nothing)
+pub const ORACLE_P: [&str; 4] = ["res", "popped", "whole", "pending"];
 
 // ---------------------------------------------------------------------------------------
 // C02: grammar + every single-point corruption; maximal reads and byte-at-a-time.
@@ -369,7 +371,7 @@ pub fn c04(cx: &mut Ctx) {
                 }
                 head.extend(format!("Content-Length: {}\r\n\r\n", n).as_bytes());
                 // (a) header block alone: the verdict must be there before any body byte
-                let mut s = script(l, &ORACLE, 0, reads(&[head.clone()]), "limit_head_only");
+                let mut s = script(l, &ORACLE_P, 0, reads(&[head.clone()]), "limit_head_only");
                 s["stop_on_error"] = json!(true);
                 cx.push(s);
                 // (b) header block and body (when it can be supplied) in one stream
@@ -377,12 +379,12 @@ pub fn c04(cx: &mut Ctx) {
                     let mut full = head.clone();
                     full.extend(gram::rand_body(&mut cx.rng, n as usize));
                     full.extend(b"GET /next HTTP/1.1\r\n\r\n");
-                    let mut s = script(l, &ORACLE, 0, reads(&[full.clone()]), "limit_with_body");
+                    let mut s = script(l, &ORACLE_P, 0, reads(&[full.clone()]), "limit_with_body");
                     s["stop_on_error"] = json!(true);
                     cx.push(s);
                     if n < 3000 {
                         let cuts = gram::random_cuts(&mut cx.rng, full.len(), 3);
-                        let mut s = script(l, &ORACLE, 0, reads(&gram::cut(&full, &cuts)), "limit_with_body_split");
+                        let mut s = script(l, &ORACLE_P, 0, reads(&gram::cut(&full, &cuts)), "limit_with_body_split");
                         s["stop_on_error"] = json!(true);
                         cx.push(s);
                     }
